@@ -200,18 +200,23 @@ def check_raw(recipe) -> list[Fail]:
                     def write(self, b):
                         if self._n == self._at:
                             self._n += 1
-                            raise OSError(28, "injected: no space left on device")
+                            raise EXC()
                         self._n += 1
                         return self._r.write(b)
 
                     def __getattr__(self, nm):
                         return getattr(self._r, nm)
 
-                h.obj._stream = _Failing(real, op[4] % 3)
+                # what goes wrong: an I/O error, running out of memory, Ctrl-C - or the caller hands over a str instead of bytes
+                # (then the stream itself refuses the value, after header and key went out)
+                ek_ = (op[4] // 3) % 4
+                EXC = [lambda: OSError(28, "injected: no space left on device"), lambda: MemoryError("injected"), lambda: KeyboardInterrupt("injected"), None][ek_]
+                if EXC is not None:
+                    h.obj._stream = _Failing(real, op[4] % 3)
                 try:
-                    h.obj.put(k, v)
+                    h.obj.put(k, v if EXC is not None else "not bytes: " + "x" * (len(v) % 50))
                     raised = None
-                except OSError as e:
+                except (OSError, MemoryError, KeyboardInterrupt, TypeError) as e:
                     raised = e
                 finally:
                     h.obj._stream = real
@@ -369,7 +374,7 @@ def strat_raw(tier):
         st.tuples(st.just("put"), h, st.integers(0, len(KEYS) - 1), st.integers(0, len(VALS) - 1)).map(list),
         st.tuples(st.just("put"), h, st.integers(0, len(KEYS) - 1), st.integers(0, 2)).map(list),
         st.tuples(st.just("get"), h, st.integers(0, len(KEYS) - 1)).map(list),
-        st.tuples(st.just("put_ioerror"), h, st.integers(0, len(KEYS) - 1), st.integers(0, 2), st.integers(0, 2)).map(list),
+        st.tuples(st.just("put_ioerror"), h, st.integers(0, len(KEYS) - 1), st.integers(0, 2), st.integers(0, 11)).map(list),
     )
     return st.fixed_dictionaries(
         {
@@ -393,12 +398,14 @@ def check_coll(recipe) -> list[Fail]:
     path = _path("coll")
     model: dict[str, bytes] = {}
     objs = []
+    asked_buf = {}
     comment = COMMENTS[recipe.get("comment", 0)]
     try:
         for i, hd in enumerate(recipe["handles"]):
             ro = bool(hd["ro"]) and i > 0
             try:
                 objs.append((Collection(path, UkvCollectionBackend, readonly=ro, bufsize=BUFS[hd["buf"]], comment=comment), ro))
+                asked_buf[id(objs[-1][0])] = BUFS[hd["buf"]]      # the buffer size the CALLER asked for (not what the backend made of it)
             except Exception as e:
                 fails.append(Fail("coll:constructor-raises", f"handle {i}: {e!r}"))
                 return fails
@@ -428,7 +435,7 @@ def check_coll(recipe) -> list[Fail]:
                         # is attempted at once and must fail leaving the view unchanged; with a buffer it is merely queued for a
                         # later session, which the statement does not describe: skipped
                         k, v = SKEYS[op[1]], VALS[op[2]]
-                        if ro or coll._backend._bufsize > 0 or len(k) + len(v) <= coll._backend._bufsize:
+                        if ro or asked_buf[id(coll)] > 0 or len(k) + len(v) <= asked_buf[id(coll)]:
                             continue   # (an empty key with an empty value does not exceed a buffer of 0 bytes: queued, not attempted)
                         try:
                             coll[k] = v
